@@ -42,6 +42,10 @@ CLAIMED = {
          "Exploration by runtime monitoring, differential oracle without a model: generated histories of file creations, external changes, deletions (with watched-file notifications), opens, unsaved edits, saves and closes over 3-6 files with 11 content variants each; after every event the client view is either compared with a fresh server started on the current directory (quiescent points: diagnostics per file as multisets, plus definition/hover/documentSymbol probes on open documents) or, for documents with unsaved edits, with the buffer's own syntax errors / the saved file's non-syntax diagnostics.",
          "Assumes a fresh server is the reference (its own correctness is the business of the other properties) and unique names per file so that C09's tie-breaking cannot blur the comparison. External changes of a dirty document are checked only up to finding C08-K1.",
          "DESIGN.md 3/C08"),
+ "C09": ("differential monitor over repeated runs: normalised diagnostics and probe answers of R independent server processes (GOMAXPROCS 1/2/16, shuffled file creation, per-process map seeds) must coincide",
+         "Exploration by runtime monitoring: each workspace (generated with unique names, the repository's testdata projects, and collision workspaces with duplicate globals of different arity/level, same-basename modules and duplicate annotation classes) is analysed by 6 (quick) or 30 (thorough) independent server processes under varied GOMAXPROCS and file creation order; the sorted diagnostics and the answers to a probe set (definition, hover, references, completion, documentSymbol, workspace/symbol) must be identical across runs. The evidence reports the maximum number of distinct observations per workspace kind.",
+         "'For all schedules' is sampled by repetition, not enumerated: a dependence that needs a rarer interleaving than R runs produce goes unnoticed.",
+         "DESIGN.md 3/C09"),
 }
 
 PENDING_REASON = "check not built yet in this revision of /verif (work in progress; see DESIGN.md section 3 for the planned monitor)"
